@@ -431,8 +431,24 @@ func ruleR12(c *Ctx) {
 			ok, wit := exactlyOnceOnAllExits(p, R, p.Graph(R).Entry(), true, pred)
 			c.Check(ok, R, R.Body, "completion lock released on all exits", "the monitor goroutine releases the completion lock exactly once on every exit", wit)
 			found := false
+			// WaitUntilComplete itself, its literals, and the same-package methods it calls or launches
+			wuc := map[*FuncInfo]bool{}
 			for _, h := range p.Funcs {
-				if h.Root().Obj == nil || h.Root().Obj.Name() != "WaitUntilComplete" {
+				if h.Root().Obj != nil && h.Root().Obj.Name() == "WaitUntilComplete" {
+					wuc[h] = true
+					hin2 := info(h)
+					ast.Inspect(h.Body, func(y ast.Node) bool {
+						if call, ok := y.(*ast.CallExpr); ok {
+							if cf := p.byObj[callee(hin2, call)]; cf != nil && cf.Pkg == h.Pkg && cf.Body != nil {
+								wuc[cf] = true
+							}
+						}
+						return true
+					})
+				}
+			}
+			for _, h := range p.Funcs {
+				if !wuc[h] {
 					continue
 				}
 				h2 := info(h)
